@@ -213,6 +213,23 @@ def run(chk: Check, drv: Driver):
                         chk.violation("kernel entered with inconsistent arguments", case, got=exc or "returned a result")
                     elif exc not in ("TypeError", "ValueError"):
                         chk.violation(f"inconsistent call not refused with TypeError/ValueError (got {exc})", case)
+                # ---- same call with the keyword arguments written in the opposite order (theorem
+                # callCheck_ok_perm: the decision is order-independent) ----
+                if len(desc) > 1:
+                    spy.entered = 0
+                    exc2 = None
+                    try:
+                        tm(**dict(reversed(list(build_kwargs(desc).items()))))
+                    except BaseException as e:  # noqa: BLE001
+                        exc2 = type(e).__name__
+                    entered2 = spy.entered > 0
+                    chk.count("reversed_order_calls")
+                    if ok_spec and (exc2 is not None or not entered2):
+                        chk.violation(f"consistent call refused when keyword order is reversed: {exc2}", dict(case, reversed_kwargs=True))
+                    elif not ok_spec and entered2:
+                        chk.violation("kernel entered with inconsistent arguments (reversed keyword order)", dict(case, reversed_kwargs=True), got=exc2 or "returned a result")
+                    elif not ok_spec and exc2 not in ("TypeError", "ValueError"):
+                        chk.violation(f"inconsistent call not refused with TypeError/ValueError (got {exc2}, reversed keyword order)", dict(case, reversed_kwargs=True))
                 reqs.append("CALLCHECK " + sx(problem_sx(pr)) + " " + sx(args_sx(desc)))
                 meta.append((case, exc, entered, result.dimensions if result is not None else None))
         finally:
